@@ -35,6 +35,11 @@ CHECKS = {
    technique="stateful property-based testing (proptest op sequences interpreted against the real binary and a content-addressed model; before/after blame relation per rewriting op)",
    text="Generated histories (block-structured op sequences with forks, divergent branches, conflicts and generated resolutions, interactive-rebase todo scripts, stash round trips, must-not-change forms) are executed through the real wrapper; after every rewriting op the AI lines reported by `git-ai blame --json` before the op must still be reported for the same session if the line survives, anything newly AI must be right by the content-addressed model, every created commit is judged by the C01 commit oracle, and aborted/refused/dry-run ops must leave existing notes and pending attribution byte-identical.",
    note="Op alphabet and bounds in harness/src/history.rs (<=24 ops, <=2 files, <=4 branches). Lines chosen in conflict resolutions and lines whose white space was re-touched across commits are judged weakly. Known findings (F2 F5 F14 F25 F26 F27 F29 F30 F31 F32) are matched by root-cause signature and are sticky for the rest of a history once triggered. `cherry-pick -n` and real merges are outside the property's list."),
+ "C03": dict(
+   level="exploration", design="DESIGN.md §2 C03",
+   technique="stateful property-based testing (proptest op sequences over the whole porcelain; safety oracle from the content-addressed writers model on blame and on every note)",
+   text="Generated histories over the whole supported porcelain including destructive and unsupported-for-preservation commands, weighted toward 'AI work pending -> destructive op -> a person writes at the same line numbers -> commit'. After every commit, at every branch tip at the end and for every note in the repository, a line reported for session S must have been written by S according to the content-addressed model. Loss is never an alarm.",
+   note="Safety direction only. A session that only re-touched white space of a line, resolved a conflict containing it, or (finding F25) deleted its neighbouring lines is classified separately. Known findings sticky per history."),
 }
 
 NOT_YET = "check not built yet (work in progress; see DESIGN.md section 2 for the plan)"
